@@ -120,6 +120,11 @@ def run_driver(binary, driver, args=(), shards=None, timeout=1500, env=None, fun
             sig = "timeout" if rc == -9 else "exit code %s" % rc
             # a crash of the real code (abort, sanitizer report, signal) is a language-level contract violation
             tail = (err or "")[-1500:]
+            mm = re.search(r"(ERROR: \w+Sanitizer[^\n]*|[^\n]*runtime error:[^\n]*|[^\n]*Assertion[^\n]*failed[^\n]*|terminate called[^\n]*(\n[^\n]*what\(\)[^\n]*)?)", err or "")
+            if mm:
+                # headline of the sanitizer / assert report plus the first frames
+                at = (err or "").find(mm.group(0))
+                tail = (err or "")[at:at + 1200]
             last = ""
             for line in out.splitlines():
                 if line.startswith("VP-CASE "):
@@ -130,7 +135,7 @@ def run_driver(binary, driver, args=(), shards=None, timeout=1500, env=None, fun
                 res.update(status="undecided", reason="driver %s usage error: %s" % (driver, tail[-200:]))
             else:
                 res["violations"].append(dict(site=driver + ":crash", kind="crash",
-                                              what="driver terminated abnormally (%s): %s" % (sig, tail.strip()[-600:]),
+                                              what="driver terminated abnormally (%s): %s" % (sig, tail.strip()[:700]),
                                               data=dict(driver=driver, last_case=last, stderr=tail)))
             continue
         res["evaluations"] += stats.get("evaluations", 0)
